@@ -12,18 +12,21 @@ package memory
 //@ macro hashOf(m *MemoryKV, k string) uint64 = dyncall(m.hashFn, k, "uint64")
 //@ macro stored(m *MemoryKV, k string) bool = m.s.keys[hashOf(m, k)] && m.s.m[hashOf(m, k)] != nil && m.s.m[hashOf(m, k)].keys[k]
 //@ macro rec(m *MemoryKV, k string) *kvValue = m.s.m[hashOf(m, k)].m[k]
-//@ macro recOK(v *kvValue) bool = v != nil && allocated(v) && v.children != nil && allocated(v.children) && v.simple.v != nil
+//@ macro inKeys(m *MemoryKV, k string) bool = m.s.m[hashOf(m, k)].keys[k]
+//@ macro outKeys(m *MemoryKV, k string) bool = m.s.keys[hashOf(m, k)]
+//@ macro recOK(v *kvValue) bool = v != nil && allocated(v) && v.children != nil && allocated(v.children) && v.simple.v != nil && allocated(v.simple.v)
 //@ macro repCore(m *MemoryKV) bool = m.s != nil && (forall h uint64 {m.s.m[h]} :: m.s.keys[h] ==> (m.s.m[h] != nil && allocated(m.s.m[h]) && h < 281474976710656))
 //@      && (forall h uint64, k string {m.s.m[h].m[k]} :: (m.s.keys[h] && m.s.m[h].keys[k]) ==> (recOK(m.s.m[h].m[k]) && hashOf(m, k) == h))
 // no two hashes share an inner map and no two keys share a record (needed only where the store is updated)
 //@ macro repInj(m *MemoryKV) bool = (forall h1, h2 uint64 {m.s.m[h1], m.s.m[h2]} :: (m.s.keys[h1] && m.s.keys[h2] && m.s.m[h1] == m.s.m[h2]) ==> h1 == h2)
 //@      && (forall h1, h2 uint64, k1, k2 string {m.s.m[h1].m[k1], m.s.m[h2].m[k2]} :: (m.s.keys[h1] && m.s.m[h1].keys[k1] && m.s.keys[h2] && m.s.m[h2].keys[k2] && m.s.m[h1].m[k1] == m.s.m[h2].m[k2]) ==> k1 == k2)
+//@      && (forall h1, h2 uint64, k1, k2 string {m.s.m[h1].m[k1].children, m.s.m[h2].m[k2].children} :: (m.s.keys[h1] && m.s.m[h1].keys[k1] && m.s.keys[h2] && m.s.m[h2].keys[k2] && m.s.m[h1].m[k1].children == m.s.m[h2].m[k2].children) ==> m.s.m[h1].m[k1] == m.s.m[h2].m[k2])
 //@ macro repOK(m *MemoryKV) bool = repCore(m) && repInj(m)
 
 //@ func newValueFunc() (v *kvValue)
 //@   ensures fresh-empty-record: v != nil && fresh(v) && v.children != nil && fresh(v.children) && v.simple.v != nil && fresh(v.simple.v) && deref(v.simple.v, "[]byte") == nil && v.lease.v == 0
 //@   ensures no-children: forall c string :: !v.children.keys[c]
-//@   ensures allocated-parts: allocated(v) && allocated(v.children)
+//@   ensures allocated-parts: allocated(v) && allocated(v.children) && allocated(v.simple.v)
 
 //@ func newInnerMapFunc() (r *skipmap.StringMap[*kvValue])
 //@   ensures r != nil && fresh(r) && allocated(r) && (forall k string :: !r.keys[k])
@@ -39,9 +42,9 @@ package memory
 //@   ensures record-of-the-key: stored(m, str(key)) && v == rec(m, str(key)) && recOK(v)
 //@   ensures existing-record-is-returned: old(stored(m, str(key))) ==> v == old(rec(m, str(key)))
 //@   ensures new-record-is-empty: !old(stored(m, str(key))) ==> (fresh(v) && fresh(v.children) && fresh(v.simple.v) && deref(v.simple.v, "[]byte") == nil && v.lease.v == 0 && (forall c string :: !v.children.keys[c]))
-//@   ensures other-keys-untouched: forall k string {rec(m, k)} :: (k != str(key) && old(stored(m, k))) ==> (stored(m, k) && rec(m, k) == old(rec(m, k)))
-//@   ensures no-key-appears-except-this-one: forall k string {rec(m, k)} :: (k != str(key) && stored(m, k)) ==> old(stored(m, k))
-//@   ensures existing-records-untouched: forall r *kvValue {r.lease.v} :: !fresh(r) ==> (r.simple.v == old(r.simple.v) && r.lease.v == old(r.lease.v) && r.children == old(r.children))
+//@   ensures other-keys-untouched: forall k string {rec(m, k)} {inKeys(m, k)} {outKeys(m, k)} :: (k != str(key) && old(stored(m, k))) ==> (stored(m, k) && rec(m, k) == old(rec(m, k)))
+//@   ensures no-key-appears-except-this-one: forall k string {rec(m, k)} {inKeys(m, k)} {outKeys(m, k)} :: (k != str(key) && stored(m, k)) ==> old(stored(m, k))
+//@   ensures existing-records-untouched: forall r *kvValue {r.lease.v} {r.simple.v} {r.children} :: !fresh(r) ==> (r.simple.v == old(r.simple.v) && r.lease.v == old(r.lease.v) && r.children == old(r.children))
 //@   ensures existing-values-untouched: forall q *[]byte {deref(q)} :: !fresh(q) ==> deref(q) == old(deref(q))
 //@   ensures existing-children-untouched: forall c *skipset.StringSet {c.keys} :: !fresh(c) ==> c.keys == old(c.keys)
 
@@ -102,8 +105,8 @@ package memory
 //@ macro leaseOf(m *MemoryKV, k string) uint64 = rec(m, k).lease.v
 //@ macro hasChild(m *MemoryKV, k string, c string) bool = rec(m, k).children.keys[c]
 // every other stored key keeps its record, and no record that existed changes at all except the named one
-//@ macro otherKeysKept(m *MemoryKV, key string) bool = (forall k string {rec(m, k)} :: (k != key && old(stored(m, k))) ==> (stored(m, k) && rec(m, k) == old(rec(m, k))))
-//@ macro onlyRecordTouched(v *kvValue) bool = (forall r *kvValue {r.lease.v} :: (!fresh(r) && r != v) ==> (r.simple.v == old(r.simple.v) && r.lease.v == old(r.lease.v) && r.children == old(r.children)))
+//@ macro otherKeysKept(m *MemoryKV, key string) bool = (forall k string {rec(m, k)} {inKeys(m, k)} {outKeys(m, k)} :: (k != key && old(stored(m, k))) ==> (stored(m, k) && rec(m, k) == old(rec(m, k))))
+//@ macro onlyRecordTouched(v *kvValue) bool = (forall r *kvValue {r.lease.v} {r.simple.v} {r.children} :: (!fresh(r) && r != v) ==> (r.simple.v == old(r.simple.v) && r.lease.v == old(r.lease.v) && r.children == old(r.children)))
 //@      && (forall c *skipset.StringSet {c.keys} :: (!fresh(c) && c != v.children) ==> c.keys == old(c.keys))
 //@      && (forall q *[]byte {deref(q)} :: !fresh(q) ==> deref(q) == old(deref(q)))
 
@@ -184,7 +187,7 @@ package memory
 //@   ensures representation-kept: repOK(m)
 //@   ensures key-gone: !stored(m, str(key))
 //@   ensures other-keys-kept: otherKeysKept(m, str(key)) && onlyRecordTouched(nil)
-//@   ensures nothing-appears: forall k string {rec(m, k)} :: stored(m, k) ==> old(stored(m, k))
+//@   ensures nothing-appears: forall k string {rec(m, k)} {inKeys(m, k)} {outKeys(m, k)} :: stored(m, k) ==> old(stored(m, k))
 
 //@ func (m *MemoryKV) RemoveKeys(ctx context.Context, keys [][]byte) (err error)
 //@   opt puredyn=content
@@ -193,13 +196,13 @@ package memory
 //@   ensures representation-kept: repOK(m)
 //@   ensures never-fails: err == nil
 //@   ensures listed-keys-gone: forall i int :: 0 <= i && i < len(keys) ==> !stored(m, str(keys[i]))
-//@   ensures unlisted-keys-kept: forall k string {rec(m, k)} :: (old(stored(m, k)) && (forall i int :: 0 <= i && i < len(keys) ==> str(keys[i]) != k)) ==> (stored(m, k) && rec(m, k) == old(rec(m, k)))
-//@   ensures nothing-appears: forall k string {rec(m, k)} :: stored(m, k) ==> old(stored(m, k))
+//@   ensures unlisted-keys-kept: forall k string {rec(m, k)} {inKeys(m, k)} {outKeys(m, k)} :: (old(stored(m, k)) && (forall i int :: 0 <= i && i < len(keys) ==> str(keys[i]) != k)) ==> (stored(m, k) && rec(m, k) == old(rec(m, k)))
+//@   ensures nothing-appears: forall k string {rec(m, k)} {inKeys(m, k)} {outKeys(m, k)} :: stored(m, k) ==> old(stored(m, k))
 //@   ensures record-contents-untouched: onlyRecordTouched(nil)
 //@   loop key: invariant idx: -1 <= rangeindex && rangeindex < len(keys) && repOK(m) && unchanged(keys)
 //@   loop key: invariant gone: forall i int :: 0 <= i && i <= rangeindex ==> !stored(m, str(keys[i]))
-//@   loop key: invariant kept: forall k string {rec(m, k)} :: (old(stored(m, k)) && (forall i int :: 0 <= i && i <= rangeindex ==> str(keys[i]) != k)) ==> (stored(m, k) && rec(m, k) == old(rec(m, k)))
-//@   loop key: invariant nothing-appears: forall k string {rec(m, k)} :: stored(m, k) ==> old(stored(m, k))
+//@   loop key: invariant kept: forall k string {rec(m, k)} {inKeys(m, k)} {outKeys(m, k)} :: (old(stored(m, k)) && (forall i int :: 0 <= i && i <= rangeindex ==> str(keys[i]) != k)) ==> (stored(m, k) && rec(m, k) == old(rec(m, k)))
+//@   loop key: invariant nothing-appears: forall k string {rec(m, k)} {inKeys(m, k)} {outKeys(m, k)} :: stored(m, k) ==> old(stored(m, k))
 //@   loop key: invariant contents: onlyRecordTouched(nil)
 
 // RangeKeys: exactly the stored, non-empty keys whose hash lies in (low, high] (everything when low == high)
@@ -339,7 +342,7 @@ package memory
 //@   ensures injectivity-kept: repInj(m)
 //@   ensures the-prefix-has-a-record: stored(m, str(prefix)) && (old(stored(m, str(prefix))) ==> rec(m, str(prefix)) == old(rec(m, str(prefix))))
 //@   ensures other-keys-unchanged: otherKeysKept(m, str(prefix))
-//@   ensures no-key-appears-except-the-prefix: forall k string {rec(m, k)} :: (k != str(prefix) && stored(m, k)) ==> old(stored(m, k))
+//@   ensures no-key-appears-except-the-prefix: forall k string {rec(m, k)} {inKeys(m, k)} {outKeys(m, k)} :: (k != str(prefix) && stored(m, k)) ==> old(stored(m, k))
 //@   ensures record-contents-untouched: onlyRecordTouched(nil)
 //@   ensures existing-lists-untouched: keptArrays("byte") && keptArrays("[]byte")
 //@   loop call Range#1: invariant own: fresh(children) && 0 <= len(children)
@@ -363,3 +366,65 @@ package memory
 //@   loop call Range#1: invariant sound: forall a int {children[a]} :: 0 <= a && a < len(children) ==> (v.children.keys[str(children[a])] && visited[str(children[a])])
 //@   loop call Range#1: invariant complete: forall c string {pos[c]} :: visited[c] ==> (0 <= pos[c] && pos[c] < len(children) && str(children[pos[c]]) == c)
 //@   loop call Range#1: invariant empty-if-new: !old(stored(m, str(prefix))) ==> (forall c string :: !v.children.keys[c])
+
+// Export: one transfer record per listed key, carrying that key's simple value, lease token and exactly its
+// children. (fetchVal creates an empty record for a key that was never stored: the abstract view is unchanged.)
+//@ func (m *MemoryKV) Export(ctx context.Context, keys [][]byte) (vals []*protocol.KVTransfer, err error)
+//@   opt puredyn=content
+//@   opt strings=abstract
+//@   opt frame=off
+//@   requires rep: repCore(m)
+//@   requires inj: repInj(m)
+//@   ghost posOf gmap[int]gmap[string]int
+//@   at after call PrefixList#1: ghost posOf[rangeindex] := callghost_pos
+//@   ensures never-fails: err == nil && len(vals) == len(keys)
+//@   ensures representation-kept: repCore(m) && repInj(m)
+//@   ensures simple-value-and-lease-exported: forall j int {vals[j]} :: (0 <= j && j < len(keys)) ==> (vals[j] != nil && stored(m, str(keys[j])) && vals[j].SimpleValue == simpleOf(m, str(keys[j])) && vals[j].LeaseToken == leaseOf(m, str(keys[j])))
+//@   ensures only-children-exported: forall j int, a int {vals[j].PrefixChildren[a]} :: (0 <= j && j < len(keys) && 0 <= a && a < len(vals[j].PrefixChildren)) ==> hasChild(m, str(keys[j]), str(vals[j].PrefixChildren[a]))
+//@   ensures every-child-exported: forall j int, c string {posOf[j][c]} :: (0 <= j && j < len(keys) && hasChild(m, str(keys[j]), c)) ==> (0 <= posOf[j][c] && posOf[j][c] < len(vals[j].PrefixChildren) && str(vals[j].PrefixChildren[posOf[j][c]]) == c)
+//@   ensures record-contents-untouched: onlyRecordTouched(nil)
+//@   ensures stored-keys-kept: forall k string {rec(m, k)} {inKeys(m, k)} {outKeys(m, k)} :: old(stored(m, k)) ==> (stored(m, k) && rec(m, k) == old(rec(m, k)))
+//@   loop key: invariant idx: -1 <= rangeindex && rangeindex < len(keys) && len(vals) == len(keys) && fresh(vals) && unchanged(keys) && keptArrays("byte") && keptArrays("[]byte")
+//@   loop key: invariant rep: repCore(m) && repInj(m)
+//@   loop key: invariant kept: (forall k string {rec(m, k)} {inKeys(m, k)} {outKeys(m, k)} :: old(stored(m, k)) ==> (stored(m, k) && rec(m, k) == old(rec(m, k)))) && onlyRecordTouched(nil)
+//@   loop key: invariant done: forall j int {vals[j]} :: (0 <= j && j <= rangeindex) ==> (vals[j] != nil && fresh(vals[j]) && allocated(vals[j]) && allocated(vals[j].PrefixChildren) && stored(m, str(keys[j])) && vals[j].SimpleValue == simpleOf(m, str(keys[j])) && vals[j].LeaseToken == leaseOf(m, str(keys[j])))
+//@   loop key: invariant children-sound: forall j int, a int {vals[j].PrefixChildren[a]} :: (0 <= j && j <= rangeindex && 0 <= a && a < len(vals[j].PrefixChildren)) ==> hasChild(m, str(keys[j]), str(vals[j].PrefixChildren[a]))
+//@   loop key: invariant children-complete: forall j int, c string {posOf[j][c]} :: (0 <= j && j <= rangeindex && hasChild(m, str(keys[j]), c)) ==> (0 <= posOf[j][c] && posOf[j][c] < len(vals[j].PrefixChildren) && str(vals[j].PrefixChildren[posOf[j][c]]) == c)
+
+// Import: afterwards every listed key holds the transferred simple value and lease token, every transferred
+// child, and no child beyond those it had before (none, for an empty store) and the transferred ones.
+// The memory backend indexes values[i] unchecked, hence the length precondition (see DESIGN.md, C17).
+//@ func (m *MemoryKV) Import(ctx context.Context, keys [][]byte, values []*protocol.KVTransfer) (err error)
+//@   opt puredyn=content
+//@   opt inline=GetSimpleValue,GetLeaseToken,GetPrefixChildren
+//@   opt strings=abstract
+//@   opt frame=off
+//@   requires rep: repCore(m)
+//@   requires inj: repInj(m)
+//@   requires one-value-per-key: len(keys) == len(values) && (forall i int {values[i]} :: (0 <= i && i < len(values)) ==> values[i] != nil)
+//@   requires keys-pairwise-distinct: forall i int, j int {keys[i], keys[j]} :: (0 <= i && i < j && j < len(keys)) ==> str(keys[i]) != str(keys[j])
+//@   ghost src gmap[int]gmap[string]int
+//@   ghost pre set[string]
+//@   ghost sets gmap[*skipset.StringSet]set[string]
+//@   ghost src0 gmap[int]gmap[string]int
+//@   at after call fetchVal#1: ghost src0 := src
+//@   at after call fetchVal#1: ghost pre := callresult0.children.keys
+//@   at after call fetchVal#1: ghost sets := absheap("skipset.StringSet", "keys")
+//@   at call Add#1: ghost src[rangeindex] := upd(src[rangeindex], str(child), rangeindex#2)
+//@   ensures never-fails: err == nil
+//@   ensures representation-kept: repCore(m) && repInj(m)
+//@   ensures simple-value-and-lease-imported: forall i int {keys[i]} :: (0 <= i && i < len(keys)) ==> (stored(m, str(keys[i])) && simpleOf(m, str(keys[i])) == values[i].SimpleValue && leaseOf(m, str(keys[i])) == values[i].LeaseToken)
+//@   ensures every-transferred-child-present: forall i int, a int {values[i].PrefixChildren[a]} :: (0 <= i && i < len(keys) && 0 <= a && a < len(values[i].PrefixChildren)) ==> hasChild(m, str(keys[i]), str(values[i].PrefixChildren[a]))
+//@   ensures no-other-child-appears: forall i int, c string {src[i][c]} :: (0 <= i && i < len(keys) && hasChild(m, str(keys[i]), c) && !(old(stored(m, str(keys[i]))) && old(hasChild(m, str(keys[i]), c)))) ==> (0 <= src[i][c] && src[i][c] < len(values[i].PrefixChildren) && str(values[i].PrefixChildren[src[i][c]]) == c)
+//@   ensures unlisted-keys-kept: forall k string {rec(m, k)} {inKeys(m, k)} {outKeys(m, k)} :: (old(stored(m, k)) && (forall i int :: (0 <= i && i < len(keys)) ==> str(keys[i]) != k)) ==> (stored(m, k) && rec(m, k) == old(rec(m, k)) && simpleOf(m, k) == old(simpleOf(m, k)) && leaseOf(m, k) == old(leaseOf(m, k)) && rec(m, k).children == old(rec(m, k).children) && rec(m, k).children.keys == old(rec(m, k).children.keys))
+//@   loop key: invariant idx: -1 <= rangeindex && rangeindex < len(keys) && unchanged(keys) && unchanged(values) && keptArrays("byte") && keptArrays("[]byte")
+//@   loop key: invariant rep: repCore(m) && repInj(m)
+//@   loop key: invariant done: forall i int {keys[i]} :: (0 <= i && i <= rangeindex) ==> (stored(m, str(keys[i])) && simpleOf(m, str(keys[i])) == values[i].SimpleValue && leaseOf(m, str(keys[i])) == values[i].LeaseToken)
+//@   loop key: invariant children-in: forall i int, a int {values[i].PrefixChildren[a]} :: (0 <= i && i <= rangeindex && 0 <= a && a < len(values[i].PrefixChildren)) ==> hasChild(m, str(keys[i]), str(values[i].PrefixChildren[a]))
+//@   loop key: invariant children-only: forall i int, c string {src[i][c]} :: (0 <= i && i <= rangeindex && hasChild(m, str(keys[i]), c) && !(old(stored(m, str(keys[i]))) && old(hasChild(m, str(keys[i]), c)))) ==> (0 <= src[i][c] && src[i][c] < len(values[i].PrefixChildren) && str(values[i].PrefixChildren[src[i][c]]) == c)
+//@   loop key: invariant pending-keys-untouched: forall k string {rec(m, k)} {inKeys(m, k)} {outKeys(m, k)} :: (forall i int :: (0 <= i && i <= rangeindex) ==> str(keys[i]) != k) ==> ((old(stored(m, k)) ==> (stored(m, k) && rec(m, k) == old(rec(m, k)) && simpleOf(m, k) == old(simpleOf(m, k)) && leaseOf(m, k) == old(leaseOf(m, k)) && rec(m, k).children == old(rec(m, k).children) && rec(m, k).children.keys == old(rec(m, k).children.keys))) && (stored(m, k) ==> old(stored(m, k))))
+//@   loop child: invariant cidx: -1 <= rangeindex#2 && rangeindex#2 < len(values[rangeindex].PrefixChildren) && recOK(v) && v == rec(m, str(key)) && stored(m, str(key)) && 0 <= rangeindex && rangeindex < len(keys) && key == keys[rangeindex]
+//@   loop child: invariant only: forall c string {src[rangeindex][c]} {v.children.keys[c]} :: (v.children.keys[c] && !pre[c]) ==> (0 <= src[rangeindex][c] && src[rangeindex][c] <= rangeindex#2 && str(values[rangeindex].PrefixChildren[src[rangeindex][c]]) == c)
+//@   loop child: invariant other-sets-kept: forall s *skipset.StringSet {s.keys} :: s != v.children ==> s.keys == sets[s]
+//@   loop child: invariant other-witnesses-kept: forall i int {src[i]} :: i != rangeindex ==> src[i] == src0[i]
+//@   loop child: invariant added: forall a int {values[rangeindex].PrefixChildren[a]} :: (0 <= a && a <= rangeindex#2) ==> v.children.keys[str(values[rangeindex].PrefixChildren[a])]
